@@ -9,9 +9,12 @@
 //     final state with the Lean model and judges it against the property. Step labels: s/d/r + Pc|Qc|Qd|Pd
 //     (snapshot, decide, reap of a stored connection that died), eP|eQ (reap by the close-watcher of the pre-existing
 //     connection e), lP|lQ (a STALE reap: reapPeer runs a second time for an older connection that died and was
-//     reaped long ago — periodic reaper() and close goroutine both reaped it — at any moment of the schedule).
-//     A state is final when no s/d/r/e step is enabled; stale reaps are optional, every final state on the way
-//     is reported.
+//     reaped long ago — periodic reaper() and close goroutine both reaped it — at any moment of the schedule),
+//     kE (the pre-existing connection e DIES for a reason outside the negotiation, at any moment of the schedule; its
+//     close-watchers eP / eQ become due and run before, between or after the snapshot and the decision of the
+//     negotiation ends of their side — an end can report CACHED and find the entry gone when it decides).
+//     A state is final when no s/d/r/e step is enabled; stale reaps and the death of e are optional environment
+//     events, every final state on the way is reported.
 //  3. live (see live.go): two real overlay.QUIC transports on loopback: simultaneous dials, and
 //     connect / connection dies / reconnect the other way round / late second reap of the dead connection.
 package main
@@ -136,10 +139,13 @@ type state struct {
 	dual   bool
 	pre    pre
 	cache  [2]entry        // P, Q
-	closed map[string]byte // connection -> what closed it first: 'n' negotiation (or a reap it caused), 'l' stale reap (or a reap it caused)
+	closed map[string]byte // connection -> what closed it first: 'n' negotiation (or a reap it caused), 'l' environment: stale reap / death of e (or a reap it caused)
 	p      [4]proc         // Pc Qc Qd Pd
 	watch  [2]bool         // close-watcher goroutine of the pre-existing connection e still waiting at P, Q
 	late   [2]bool         // a stale reap may still run at P, Q
+	die    bool            // the pre-existing connection e may still die for a reason outside the negotiation
+	// statistics only (not part of the state): an end decided although the entry it reported as CACHED had gone
+	win bool
 }
 
 var procName = []string{"Pc", "Qc", "Qd", "Pd"}
@@ -172,13 +178,16 @@ func dirOr(e entry) string {
 	return e.dir
 }
 
-// a step label: kind s|d|r + process, or kind e|l + side
+// a step label: kind s|d|r + process, or kind e|l + side, or kE
 type label struct {
 	kind byte
 	i    int
 }
 
 func (l label) String() string {
+	if l.kind == 'k' {
+		return "kE"
+	}
 	if l.kind == 'e' || l.kind == 'l' {
 		return string(l.kind) + sideName[l.i]
 	}
@@ -188,6 +197,9 @@ func (l label) String() string {
 func parseLabel(t string) (label, bool) {
 	if len(t) < 2 {
 		return label{}, false
+	}
+	if t == "kE" {
+		return label{'k', 0}, true
 	}
 	names := procName
 	if t[0] == 'e' || t[0] == 'l' {
@@ -203,7 +215,7 @@ func parseLabel(t string) (label, bool) {
 	return label{}, false
 }
 
-var ownLabels, lateLabels, allLabels []label
+var ownLabels, envLabels, allLabels []label
 
 func init() {
 	for _, k := range []byte{'s', 'd', 'r'} {
@@ -212,8 +224,8 @@ func init() {
 		}
 	}
 	ownLabels = append(ownLabels, label{'e', 0}, label{'e', 1})
-	lateLabels = []label{{'l', 0}, {'l', 1}}
-	allLabels = append(append([]label{}, ownLabels...), lateLabels...)
+	envLabels = []label{{'l', 0}, {'l', 1}, {'k', 0}}
+	allLabels = append(append([]label{}, ownLabels...), envLabels...)
 }
 
 func (s *state) enabled(l label) bool {
@@ -229,11 +241,13 @@ func (s *state) enabled(l label) bool {
 		return s.watch[i] && s.closed["e"] != 0
 	case 'l':
 		return s.late[i]
+	case 'k':
+		return s.die && s.closed["e"] == 0
 	}
 	return false
 }
 
-// final: no step of the negotiations and no due reap is left (a stale reap may still be possible)
+// final: no step of the negotiations and no due reap is left (an environment event may still be possible)
 func (s *state) final() bool {
 	for _, l := range ownLabels {
 		if s.enabled(l) {
@@ -289,6 +303,9 @@ func (s *state) step(l label) {
 		if a.reload {
 			cv = cur
 		}
+		if me.snap.conn != "" && cur.conn != me.snap.conn {
+			s.win = true
+		}
 		if a.closeFresh {
 			s.close(procConn[i], 'n')
 		}
@@ -326,6 +343,9 @@ func (s *state) step(l label) {
 	case 'l':
 		s.reapPeer(i, "", 'l')
 		s.late[i] = false
+	case 'k':
+		s.close("e", 'l')
+		s.die = false
 	}
 }
 
@@ -345,7 +365,7 @@ func (s *state) String() string {
 		switch s.closed[c] {
 		case 'n':
 			cl += c
-		case 'l': // closed by a stale reap (or by a reap that it caused): upper case
+		case 'l': // closed by the environment - a stale reap, the death of e - (or by a reap that it caused): upper case
 			cl += strings.ToUpper(c)
 		}
 	}
@@ -388,10 +408,12 @@ var preStates = []pre{
 	{entry{"e", "outgoing"}, entry{"e", "incoming"}}, {entry{"e", "incoming"}, entry{"e", "outgoing"}},
 }
 
-// lateP / lateQ: a stale reap may happen at that side
-func initState(dual bool, pr pre, lateP, lateQ bool) *state {
+func (pr pre) hasE() bool { return pr.p.conn != "" || pr.q.conn != "" }
+
+// lateP / lateQ: a stale reap may happen at that side; die: the pre-existing connection (if there is one) may die
+func initState(dual bool, pr pre, lateP, lateQ, die bool) *state {
 	return &state{dual: dual, pre: pr, cache: [2]entry{pr.p, pr.q}, closed: map[string]byte{},
-		watch: [2]bool{pr.p.conn != "", pr.q.conn != ""}, late: [2]bool{lateP, lateQ}}
+		watch: [2]bool{pr.p.conn != "", pr.q.conn != ""}, late: [2]bool{lateP, lateQ}, die: die && pr.hasE()}
 }
 
 func emitSched(r *hlib.Run, dual bool, pr pre, steps []string, s *state) {
@@ -415,15 +437,22 @@ func emitSched(r *hlib.Run, dual bool, pr pre, steps []string, s *state) {
 	if strings.Contains(rhs, "+reaped") {
 		r.Count("sched:reaped")
 	}
-	nl := 0
+	nl, nk := 0, 0
 	for _, st := range steps {
 		if st[0] == 'l' {
 			nl++
 		}
+		if st == "kE" && s.closed["e"] != 0 {
+			nk = 1
+		}
 	}
 	r.Count(fmt.Sprintf("sched:stale-reaps=%d", nl))
+	r.Count(fmt.Sprintf("sched:e-died=%d", nk))
 	if nl > 0 && strings.ContainsAny(field(rhs, "closed"), "ECD") {
 		r.Count("sched:stale-reap-closed-a-cached-connection")
+	}
+	if s.win {
+		r.Count("sched:entry-reported-CACHED-gone-at-decision")
 	}
 	r.Count("sched:dual=" + d)
 }
@@ -437,7 +466,7 @@ func field(rhs, key string) string {
 	return ""
 }
 
-// every interleaving from s; every final state on the way is reported (a stale reap may follow a final state)
+// every interleaving from s; every final state on the way is reported (an environment event may follow a final state)
 func dfs(r *hlib.Run, dual bool, pr pre, s *state, steps []string) {
 	if s.final() {
 		emitSched(r, dual, pr, steps, s)
@@ -463,9 +492,9 @@ func parseEntryTok(t string) entry {
 	return entry{p[0], d}
 }
 
-// run a list of labels (labels that are not enabled are skipped); stale reaps are possible at both sides
+// run a list of labels (labels that are not enabled are skipped); stale reaps are possible at both sides, e may die
 func runSteps(dual bool, pr pre, steps []string) *state {
-	s := initState(dual, pr, true, true)
+	s := initState(dual, pr, true, true, true)
 	for _, st := range steps {
 		if l, ok := parseLabel(st); ok && s.enabled(l) {
 			s.step(l)
@@ -474,7 +503,7 @@ func runSteps(dual bool, pr pre, steps []string) *state {
 	return s
 }
 
-// complete the run deterministically (no further stale reap) so that the reported state is final
+// complete the run deterministically (no further environment event) so that the reported state is final
 func complete(st *state, steps []string) []string {
 	for again := true; again; {
 		again = false
@@ -491,7 +520,7 @@ func complete(st *state, steps []string) []string {
 
 func main() {
 	r := hlib.Start()
-	r.Rule = "table rows of the current reuse.go / reaper.go; sched = every interleaving of snapshot/decide/reap steps of one dial or two simultaneous dials from each of the 7 consistent pre-existing cache states (exhaustive, schedule by schedule); the same with stale reaps (second reapPeer of an older dead connection) at every point of the schedule: one stale reap at either side schedule by schedule for one dial (and for two dials in the thorough tier), one stale reap and stale reaps at both sides state by state (every reachable final state reported once, with a seed-dependent schedule) for two dials; plus random step sequences with repeated / disabled labels and stale reaps at both sides; non-trivial = distinct schedule"
+	r.Rule = "table rows of the current reuse.go / reaper.go; sched = every interleaving of snapshot/decide/reap steps of one dial or two simultaneous dials from each of the 7 consistent pre-existing cache states (exhaustive, schedule by schedule); the same with environment events at every point of the schedule - stale reaps (second reapPeer of an older dead connection) and the death of the pre-existing connection followed by its close-watchers (so that an end reports CACHED and decides after the entry has gone): one event (stale reap at P, at Q, death of e) schedule by schedule for one dial (and for two dials in the thorough tier), state by state (every reachable final state reported once, with a seed-dependent schedule) for two dials; several events (death of e + a stale reap: schedule by schedule for one dial; stale reaps at both sides with and without the death of e) state by state; plus random step sequences with repeated / disabled labels and all environment events; non-trivial = distinct schedule"
 	if err := loadTable(); err != nil {
 		// the decision code is no longer in the shape the extractor understands
 		r.Emit("table", "unreadable:"+strings.ReplaceAll(err.Error(), " ", "_"))
@@ -537,24 +566,39 @@ func main() {
 	// failure.
 	for _, pr := range preStates {
 		r.Raw("# case sched")
-		dfs(r, false, pr, initState(false, pr, false, false), nil)
+		dfs(r, false, pr, initState(false, pr, false, false, false), nil)
 	}
-	// stale reaps at every point of every interleaving.
-	// one dial: one stale reap at P or at Q, path by path; stale reaps at both sides, state by state.
-	// two dials: state by state (one stale reap, and stale reaps at both sides); thorough tier: one stale reap also
-	// path by path (a few million schedules).
+	// environment events at every point of every interleaving: stale reaps (lP, lQ) and the death of the pre-existing
+	// connection (kE, followed by its close-watchers eP / eQ).
+	// ONE event (a stale reap at P, a stale reap at Q, the death of e): path by path for one dial and, in the thorough
+	// tier, for two dials (a few million schedules); state by state for two dials in the quick tier.
+	// SEVERAL events (the death of e and a stale reap at P / at Q, path by path for one dial; stale reaps at both sides,
+	// with and without the death of e): state by state.
+	type envCfg struct{ lateP, lateQ, die bool }
 	for _, dual := range []bool{false, true} {
 		for _, pr := range preStates {
-			for side := 0; side < 2; side++ {
+			for _, c := range []envCfg{{true, false, false}, {false, true, false}, {false, false, true}} {
+				if c.die && !pr.hasE() {
+					continue
+				}
 				r.Raw("# case sched")
 				if !dual || r.Thorough() {
-					dfsLate(r, dual, pr, initState(dual, pr, side == 0, side == 1), nil, false)
+					dfsLate(r, dual, pr, initState(dual, pr, c.lateP, c.lateQ, c.die), nil, false)
 				} else {
-					reachLate(r, rng, dual, pr, initState(dual, pr, side == 0, side == 1), nil, false, map[string]bool{})
+					reachLate(r, rng, dual, pr, initState(dual, pr, c.lateP, c.lateQ, c.die), nil, false, map[string]bool{})
 				}
 			}
-			r.Raw("# case sched")
-			reachLate(r, rng, dual, pr, initState(dual, pr, true, true), nil, false, map[string]bool{})
+			for _, c := range []envCfg{{true, false, true}, {false, true, true}, {true, true, false}, {true, true, true}} {
+				if c.die && !pr.hasE() {
+					continue
+				}
+				r.Raw("# case sched")
+				if !dual && !(c.lateP && c.lateQ) {
+					dfsLate(r, dual, pr, initState(dual, pr, c.lateP, c.lateQ, c.die), nil, false)
+				} else {
+					reachLate(r, rng, dual, pr, initState(dual, pr, c.lateP, c.lateQ, c.die), nil, false, map[string]bool{})
+				}
+			}
 		}
 	}
 	nre := 2
@@ -564,7 +608,7 @@ func main() {
 	relive(r, nre)
 	for _, pr := range preStates {
 		r.Raw("# case sched")
-		dfs(r, true, pr, initState(true, pr, false, false), nil)
+		dfs(r, true, pr, initState(true, pr, false, false, false), nil)
 	}
 	// random label sequences, with repetitions and labels that are not enabled (the model skips them)
 	n := 3000
@@ -602,11 +646,11 @@ func (s *state) key() string {
 		p := s.p[i]
 		k += fmt.Sprintf("|%d/%s/%s/%s", p.pc, entryTok(p.snap), p.status[0], p.status[1])
 	}
-	return k + fmt.Sprintf("|%v%v", s.watch, s.late)
+	return k + fmt.Sprintf("|%v%v%v", s.watch, s.late, s.die)
 }
 
-// the interleavings with stale reaps, path by path: as dfs, but only the final states that come after a stale reap
-// are reported (the others are those of the run without it).
+// the interleavings with environment events (stale reaps, death of e), path by path: as dfs, but only the final
+// states that come after an environment event are reported (the others are those of the run without it).
 func dfsLate(r *hlib.Run, dual bool, pr pre, s *state, steps []string, stale bool) {
 	if stale && s.final() {
 		emitSched(r, dual, pr, steps, s)
@@ -615,14 +659,14 @@ func dfsLate(r *hlib.Run, dual bool, pr pre, s *state, steps []string, stale boo
 		if s.enabled(l) {
 			n := s.clone()
 			n.step(l)
-			dfsLate(r, dual, pr, n, append(append([]string{}, steps...), l.String()), stale || l.kind == 'l')
+			dfsLate(r, dual, pr, n, append(append([]string{}, steps...), l.String()), stale || l.kind == 'l' || l.kind == 'k')
 		}
 	}
 }
 
-// the interleavings with stale reaps, state by state: every state that is reachable is visited once (the
-// steps, the finality of a state and the property depend on the state only), every FINAL state reached after a stale
-// reap is reported with the first schedule found for it. The order in which the enabled steps are tried is shuffled
+// the interleavings with environment events, state by state: every state that is reachable is visited once (the
+// steps, the finality of a state and the property depend on the state only), every FINAL state reached after an
+// environment event is reported with the first schedule found for it. The order in which the enabled steps are tried is shuffled
 // by the seed, so different seeds report different schedules for the same states.
 func reachLate(r *hlib.Run, rng *hlib.Rng, dual bool, pr pre, s *state, steps []string, stale bool, seen map[string]bool) {
 	k := s.key()
@@ -649,6 +693,6 @@ func reachLate(r *hlib.Run, rng *hlib.Rng, dual bool, pr pre, s *state, steps []
 	for _, l := range en {
 		n := s.clone()
 		n.step(l)
-		reachLate(r, rng, dual, pr, n, append(append([]string{}, steps...), l.String()), stale || l.kind == 'l', seen)
+		reachLate(r, rng, dual, pr, n, append(append([]string{}, steps...), l.String()), stale || l.kind == 'l' || l.kind == 'k', seen)
 	}
 }
